@@ -800,6 +800,12 @@ func genC20(p *Plan, tier string) {
 	p.Ops = append(p.Ops, &Op{Kind: "http", ID: "schema-ref", Method: "GET", Path: "/api/preferenceFunctions", NoBody: true, Expect: &Expect{Schema: true}})
 	rp := NewRand(Mix(p.Seed, "pad"))
 	pad := func(op *Op) {
+		// the body is JSON whatever the client says about it (or does not say): nothing in the
+		// property depends on the Content-Type header
+		if rp.Bool(0.03) {
+			op.CType = rp.PickS("application/json; charset=utf-8", "text/plain", "-", "application/x-www-form-urlencoded", "APPLICATION/JSON", "application/xml", "multipart/form-data; boundary=x")
+			p.Tags = append(p.Tags, "c20-other-content-type")
+		}
 		// the same request as a large body (megabytes): nothing in the property depends on the size
 		if rp.Bool(0.004) {
 			op.Pad = int(rp.PickF(1100000, 2500000, 5000000, 11000000))
